@@ -391,3 +391,153 @@ def ref_call(sig, call):
         return ("ok", _render_body(sig, env))
     except BindError:
         return ("exc", "TypeError")
+
+
+# --------------------------------------------------------------------------
+# family "site": the same call written in every kind of enclosing frame.
+# docs ("Macros", "Call"): what a call binds does not depend on where in the
+# template the call is written, so R-bind's answer is the same at every site.
+
+SITES = (
+    ("top", "", ""),
+    ("if", "{% if true %}", "{% endif %}"),
+    ("for", "{% for i_ in [0] %}", "{% endfor %}"),
+    ("block", "{% block main %}", "{% endblock %}"),
+    ("block_if", "{% block main %}{% if true %}", "{% endif %}{% endblock %}"),
+    ("block_for", "{% block main %}{% for i_ in [0] %}", "{% endfor %}{% endblock %}"),
+    ("for_block", "{% for i_ in [0] %}{% block main %}", "{% endblock %}{% endfor %}"),
+    ("block_with", "{% block main %}{% with w_ = 1 %}", "{% endwith %}{% endblock %}"),
+    ("with", "{% with w_ = 1 %}", "{% endwith %}"),
+    ("setblock", "{% set s_ %}", "{% endset %}{{ s_ }}"),
+    ("filter", "{% filter string %}", "{% endfilter %}"),
+    ("autoescape", "{% autoescape false %}", "{% endautoescape %}"),
+    ("macro", "{% macro o_() %}", "{% endmacro %}{{ o_() }}"),
+    ("callbody", "{% macro w_() %}{{ caller() }}{% endmacro %}{% call w_() %}", "{% endcall %}"),
+)
+SITE_WRAP = {n: (a, b) for n, a, b in SITES}
+
+
+def site_param_lists(quick):
+    if quick:
+        return [(), (("a", None),), (("a", None), ("b", ("c", "Db")))]
+    return list(plain_param_lists(2))
+
+
+def site_calls(params, quick):
+    return list(calls_for(params, max_pos=2, max_kw=1 if quick else 2,
+                          seqs=() if quick else ((1, "after"),), empty_map=False))
+
+
+def site_source(site, csrc):
+    a, b = SITE_WRAP[site]
+    return a + csrc + b
+
+
+# --------------------------------------------------------------------------
+# family "mutdef": list/dict valued defaults, bodies that mutate the bound value,
+# histories of several calls of the same macro object.
+# docs / C06: an unfilled parameter takes its default *evaluated at call time*, so
+# every call that leaves the parameter out starts from a fresh value.
+#
+# msig  = tuple of (name, default source), name "acc" (list) / "seen" (dict); the
+#         macro is m(x, <msig>)
+# hist  = tuple of calls; call = tuple of bool per parameter of msig: True = the
+#         argument is passed explicitly (a fresh literal), False = left out
+
+MUT_DEFAULTS = {
+    "acc": ("[]", "['i']", "[x]", "[o]"),
+    "seen": ("{}", "{'i': 'I'}", "{x: 'X'}"),
+}
+MUT_EXPLICIT = {"acc": "['e']", "seen": "{'e': 'E'}"}
+
+
+def mut_signatures():
+    for d in MUT_DEFAULTS["acc"]:
+        yield (("acc", d),)
+    for d in MUT_DEFAULTS["seen"]:
+        yield (("seen", d),)
+    for d1 in MUT_DEFAULTS["acc"]:
+        for d2 in MUT_DEFAULTS["seen"]:
+            yield (("acc", d1), ("seen", d2))
+
+
+def mut_histories(msig, hmax):
+    one = list(itertools.product((False, True), repeat=len(msig)))
+    for h in range(1, hmax + 1):
+        yield from itertools.product(one, repeat=h)
+
+
+def mut_is_constant(dsrc):
+    return "x" not in dsrc and "o" not in dsrc
+
+
+def mut_body_source(msig):
+    out = []
+    for n, _ in msig:
+        out.append("{{ acc.append(x) or '' }}" if n == "acc" else "{{ seen.update({x: 'S'}) or '' }}")
+    for n, _ in msig:
+        out.append("A={{ acc|join(',') }};" if n == "acc"
+                   else "S={% for k, v in seen|dictsort %}{{ k }}:{{ v }},{% endfor %};")
+    return "".join(out)
+
+
+def mut_params_source(msig):
+    return "x" + "".join(f", {n}={d}" for n, d in msig)
+
+
+def mut_macro_source(msig):
+    return ("{% set o = 'O1' %}{% macro m(" + mut_params_source(msig) + ") %}" + mut_body_source(msig)
+            + "{% endmacro %}{% set o = 'O2' %}")
+
+
+def mut_args_source(msig, i, call):
+    return repr("v%d" % (i + 1)) + "".join(f", {n}={MUT_EXPLICIT[n]}" for (n, _), e in zip(msig, call) if e)
+
+
+def mut_python_kwargs(msig, call):
+    return {n: (["e"] if n == "acc" else {"e": "E"}) for (n, _), e in zip(msig, call) if e}
+
+
+def mut_source(msig, hist, route):
+    """route: inline | loop | callblock   (python is driven by the check itself)"""
+    if route == "inline":
+        return mut_macro_source(msig) + "|".join(
+            "{{ m(" + mut_args_source(msig, i, c) + ") }}" for i, c in enumerate(hist))
+    if route == "loop":
+        vals = ", ".join(repr("v%d" % (i + 1)) for i in range(len(hist)))
+        return (mut_macro_source(msig) + "{% for v_ in [" + vals + "] %}{{ m(v_) }}"
+                "{% if not loop.last %}|{% endif %}{% endfor %}")
+    drv = "|".join("{{ caller(" + mut_args_source(msig, i, c) + ") }}" for i, c in enumerate(hist))
+    return ("{% set o = 'O1' %}{% macro drv() %}" + drv + "{% endmacro %}{% set o = 'O2' %}"
+            "{% call(" + mut_params_source(msig) + ") drv() %}" + mut_body_source(msig) + "{% endcall %}")
+
+
+def _mut_default(dsrc, x):
+    return {"[]": lambda: [], "['i']": lambda: ["i"], "[x]": lambda: [x], "[o]": lambda: [OUTER_AT_CALL],
+            "{}": lambda: {}, "{'i': 'I'}": lambda: {"i": "I"}, "{x: 'X'}": lambda: {x: "X"}}[dsrc]()
+
+
+def mut_ref(msig, hist):
+    """every call builds its arguments and defaults afresh (call-time evaluation)."""
+    outs = []
+    for i, call in enumerate(hist):
+        x = "v%d" % (i + 1)
+        vals = {}
+        for (n, d), explicit in zip(msig, call):
+            if explicit:
+                vals[n] = ["e"] if n == "acc" else {"e": "E"}
+            else:
+                vals[n] = _mut_default(d, x)
+        for n, _ in msig:
+            if n == "acc":
+                vals[n].append(x)
+            else:
+                vals[n][x] = "S"
+        s = ""
+        for n, _ in msig:
+            if n == "acc":
+                s += "A=" + ",".join(vals[n]) + ";"
+            else:
+                s += "S=" + "".join(f"{k}:{v}," for k, v in sorted(vals[n].items())) + ";"
+        outs.append(s)
+    return ("ok", "|".join(outs))
